@@ -5,8 +5,8 @@ package main
 // Real code exercised (in a child process, see hx.RunIsolated): the cmd/validate version sniff
 // (yaml.Unmarshal), Loader.LoadFromData / LoadFromDataWithPath / LoadFromFile with an in-memory
 // ReadFromURIFunc and both settings of IsExternalRefsAllowed, then on a returned document
-// (*T).Validate (default options and the cmd/validate option sets), json.Marshal, InternalizeRefs,
-// json.Marshal again. Every stage has its own recover; a fatal crash (stack overflow) or a timeout
+// (*T).Validate (default options, everything switched off, everything switched on), json.Marshal,
+// MarshalYAML + yaml.Marshal, InternalizeRefs, json.Marshal again. Every stage has its own recover; a fatal crash (stack overflow) or a timeout
 // is observed by the parent.
 
 import (
@@ -14,7 +14,9 @@ import (
 	"context"
 	"encoding/base64"
 	"encoding/json"
+	"flag"
 	"fmt"
+	"io"
 	"net/url"
 	"os"
 	"os/exec"
@@ -39,8 +41,12 @@ func init() {
 			"(each JSON pointer of the document, each pointer extended by a numeric token below/at/beyond the array length, by an absent pointer-typed field, " +
 			"by additionalProperties/items/not/schema, the degenerate texts \"\", #, #/, #x, external files with and without fragment) × entry point × switch; " +
 			"adversarial reference graphs (cycles through every schema keyword, same text met as two kinds, encoding headers by $ref, pure $ref cycles); " +
+			"directed blocks: path-item reference graphs (19 item shapes pairwise × 7 callback shapes: chains, cycles a→b→a, self-references, with and without '#', across three files, next to own content, below inline and referenced callbacks), " +
+			"references into extension members for every component kind (valid / nested reference of another kind back to the same text / null child / degenerate, at the component and at a use site), " +
+			"a path item with $ref and content with every position below it as null or a reference; " +
 			"seeded random stream: 1–4 structure-aware mutations of valid documents (replace a subtree by null/number/string/array/object/$ref/a subtree of another kind, " +
-			"insert any OpenAPI keyword, delete, swap kinds), token-level mutations of the serialised text (delete/duplicate/replace/swap tokens, truncate), YAML forms " +
+			"insert any OpenAPI keyword, delete, swap kinds), the same written as YAML with anchors/aliases for repeated sub-trees, merge keys, non-string keys and YAML spellings of booleans and null, " +
+			"huge scalars (1 MiB string, 64 Ki key, 400-digit numbers, 64 Ki-token fragment, 64 Ki enum), token-level mutations of the serialised text (delete/duplicate/replace/swap tokens, truncate), YAML forms " +
 			"(non-string keys, anchors, merge keys, deep nesting). Non-trivial = the model reports at least one non-default branch (a reference drill-down, a cycle, a typed-nil target, " +
 			"a backtrack registration, an external read, a recursive schema reaching the value validator, …).",
 		Exhaustive: true,
@@ -52,13 +58,44 @@ func init() {
 		Workers:    12,
 		Assumptions: []string{
 			"JSON/YAML parsers and marshmallow are not modelled: the parse of the bytes (encoding/json, else oasdiff/yaml YAMLToJSON) is computed by the harness and handed to the model as the document tree",
-			"every case runs in a child process with a 16 MiB stack limit and a timeout of 15 s; a fatal crash or timeout is an observation; after 6000 crashed or 36 hung children the remaining cases of a run are skipped",
+			"every case runs in a child process with a 16 MiB stack limit and a timeout of 20 s (a case that exceeds it is run once more, alone, with 60 s: only then it counts as a hang); a fatal crash or timeout is an observation; after 3000 crashed or 12 hung children, or 300 s (thorough: 1500 s) of wall time, the remaining cases of a run are skipped (counted as impl_outcome_kinds.skipped) — the run cannot stall as a whole",
 			"external files are served from memory through ReadFromURIFunc (no disk or network access)",
 		},
 	})
 }
 
-const c20TimeoutMs = 15000
+// Per-case limits. A case that does not answer within c20TimeoutMs is run once more in a fresh child with
+// c20RetryTimeoutMs, so that a slow machine does not turn a slow case into a "hang"; only a case that
+// exceeds both is observed as a hang. The slowest case of the unchanged tree (1000 nested `items`, the
+// typed decoding is quadratic in the nesting depth) takes 0.5 s.
+const (
+	c20TimeoutMs      = 20000
+	c20RetryTimeoutMs = 60000
+)
+
+// wall-clock budget of the whole run (generation + shrinking): after it the remaining cases are not executed
+// (observation {"skipped": true}, counted in the evidence under impl_outcome_kinds), so that the run can
+// never stall as a whole whatever the code under test does.
+var (
+	c20StartOnce sync.Once
+	c20Start     time.Time
+	c20BudgetDur time.Duration
+	c20Skipped   int64
+)
+
+func c20OverBudget() bool {
+	c20StartOnce.Do(func() {
+		c20Start = time.Now()
+		c20BudgetDur = 300 * time.Second
+		if f := flag.Lookup("tier"); f != nil && f.Value.String() == "thorough" {
+			c20BudgetDur = 1500 * time.Second
+		}
+		if v, err := strconv.Atoi(os.Getenv("C20_BUDGET_S")); err == nil && v > 0 {
+			c20BudgetDur = time.Duration(v) * time.Second
+		}
+	})
+	return time.Since(c20Start) > c20BudgetDur
+}
 
 // runC20Isolated evaluates the case in a pooled child process; when the child dies the case is run
 // once more in a fresh child whose stderr is kept, to name the function that overflowed the stack.
@@ -69,14 +106,20 @@ const c20StackMB = 16
 // hung children the remaining cases are not executed (observation {"skipped": true}, counted in the
 // evidence under impl_outcome_kinds); the unchanged tree stays far below both limits.
 const (
-	c20MaxCrashes = 6000
-	c20MaxHangs   = 36
+	c20MaxCrashes = 3000
+	c20MaxHangs   = 12
 )
 
 var c20Crashes, c20Hangs int64
 
 func runC20Isolated(c hx.Case) any {
-	if atomic.LoadInt64(&c20Crashes) > c20MaxCrashes || atomic.LoadInt64(&c20Hangs) > c20MaxHangs {
+	if c20OverBudget() || atomic.LoadInt64(&c20Crashes) > c20MaxCrashes || atomic.LoadInt64(&c20Hangs) > c20MaxHangs {
+		atomic.AddInt64(&c20Skipped, 1)
+		return map[string]any{"skipped": true, "kind": "skipped"}
+	}
+	if f := os.Getenv("C20_DUMP"); f != "" {
+		b, _ := json.Marshal(c)
+		c20Trace(f, string(b))
 		return map[string]any{"skipped": true, "kind": "skipped"}
 	}
 	if f := os.Getenv("C20_TRACE"); f != "" {
@@ -89,6 +132,17 @@ func runC20Isolated(c hx.Case) any {
 		defer func() { c20Trace(f, fmt.Sprintf("%s done %d", time.Now().Format("15:04:05.000"), id)) }()
 	}
 	obs := hx.RunIsolated("C20", c, c20TimeoutMs)
+	if m, ok := obs.(map[string]any); ok {
+		if _, hung := m["hang"]; hung {
+			// slow or hanging? once more, alone in a fresh child, with three times the limit
+			obs = hx.RunIsolated("C20", c, c20RetryTimeoutMs)
+			if m2, ok := obs.(map[string]any); ok {
+				if _, hung2 := m2["hang"]; !hung2 {
+					m2["slow"] = true
+				}
+			}
+		}
+	}
 	if m, ok := obs.(map[string]any); ok {
 		if _, crashed := m["crash"]; crashed {
 			atomic.AddInt64(&c20Crashes, 1)
@@ -222,6 +276,7 @@ type c20Obs struct {
 	stages map[string]string
 	panics []string
 	sites  []string
+	errs   map[string]string // only with C20_ERRS=1 (debugging aid): the error text per stage
 }
 
 func (o *c20Obs) stage(name string, f func() error) (ok bool) {
@@ -239,6 +294,13 @@ func (o *c20Obs) stage(name string, f func() error) (ok bool) {
 	}()
 	if err := f(); err != nil {
 		o.stages[name] = "err"
+		if o.errs != nil {
+			msg := err.Error()
+			if len(msg) > 240 {
+				msg = msg[:240]
+			}
+			o.errs[name] = msg
+		}
 		return false
 	}
 	o.stages[name] = "ok"
@@ -257,6 +319,9 @@ func runC20(c hx.Case) any {
 	files["/r/root.json"] = data
 	reads := 0
 	o := &c20Obs{stages: map[string]string{}}
+	if os.Getenv("C20_ERRS") != "" {
+		o.errs = map[string]string{}
+	}
 	o.stage("sniff", func() error {
 		var vd struct {
 			OpenAPI string `json:"openapi" yaml:"openapi"`
@@ -294,12 +359,30 @@ func runC20(c hx.Case) any {
 		o.stage("validate_opts", func() error {
 			return doc.Validate(ctx, openapi3.DisableSchemaDefaultsValidation(), openapi3.DisableExamplesValidation(), openapi3.DisableSchemaPatternValidation())
 		})
+		o.stage("validate_more", func() error {
+			return doc.Validate(ctx, openapi3.EnableSchemaFormatValidation(), openapi3.EnableSchemaPatternValidation(), openapi3.EnableSchemaDefaultsValidation(),
+				openapi3.EnableExamplesValidation(), openapi3.ProhibitExtensionsWithRef(), openapi3.AllowExtraSiblingFields("description", "summary"))
+		})
 		o.stage("marshal", func() error { _, err := json.Marshal(doc); return err })
-		o.stage("internalize", func() error { doc.InternalizeRefs(ctx, nil); return nil })
-		o.stage("marshal2", func() error { _, err := json.Marshal(doc); return err })
+		o.stage("marshal_yaml", func() error {
+			v, err := doc.MarshalYAML()
+			if err != nil {
+				return err
+			}
+			_, err = yaml.Marshal(v)
+			return err
+		})
+		// the document is serialised again only when InternalizeRefs returned (after a panic its state is undefined)
+		if o.stage("internalize", func() error { doc.InternalizeRefs(ctx, nil); return nil }) {
+			o.stage("marshal2", func() error { _, err := json.Marshal(doc); return err })
+		}
 	}
 	sort.Strings(o.sites)
-	return map[string]any{"stages": o.stages, "panics": o.panics, "sites": o.sites, "kind": c20Kind(o)}
+	res := map[string]any{"stages": o.stages, "panics": o.panics, "sites": o.sites, "kind": c20Kind(o)}
+	if o.errs != nil {
+		res["errs"] = o.errs
+	}
+	return res
 }
 
 func c20Kind(o *c20Obs) string {
@@ -356,6 +439,15 @@ func cmpC20(c hx.Case, impl any, reply map[string]any) hx.Verdict {
 	if f := os.Getenv("C20_CENSUS"); f != "" && len(iAb) > 0 {
 		c20Census(f, c, im, reply)
 	}
+	if f := os.Getenv("C20_LOADCENSUS"); f != "" {
+		// debugging aid: model's load outcome against the implementation's load stage
+		st, _ := im["stages"].(map[string]any)
+		il, ml := fmt.Sprint(st["load"]), fmt.Sprint(model["load"])
+		mok := ml == "ok"
+		if st != nil && ml != "unparsed" && ml != "not-an-object" && (il == "ok") != mok {
+			c20Census(f, c, map[string]any{"load": il, "errs": im["errs"]}, reply)
+		}
+	}
 	// implementation vs model: the model lists the stage groups in which it can end abnormally
 	// ("load", "validate", "post" = marshal/internalize/marshal, "crash:<function family>"); the
 	// implementation agrees when it returns normally and the model lists nothing, or when the group of
@@ -377,6 +469,18 @@ func cmpC20(c hx.Case, impl any, reply map[string]any) hx.Verdict {
 			v.Detail += fmt.Sprintf(" (group %s; model: %v)", g, mAb)
 		}
 	}
+	// the load outcome, one direction: the typed decoding (not modelled) and the order of resolution can only
+	// make the real load fail where the model's succeeds — a load that succeeds where the model reports an
+	// error means the model of the reference resolution (drill-down, walk, kinds) no longer describes the code
+	if st, _ := im["stages"].(map[string]any); st != nil && v.IM {
+		if ml := fmt.Sprint(model["load"]); fmt.Sprint(st["load"]) == "ok" && (ml == "err" || ml == "errMust" || ml == "fuel") {
+			v.IM = false
+			v.Detail = "implementation loads the document, the model's load ends with " + ml
+		}
+	}
+	if f := os.Getenv("C20_MISMATCH"); f != "" && !v.IM {
+		c20Census(f, c, im, reply)
+	}
 	return v
 }
 
@@ -391,6 +495,8 @@ func c20Group(iAb []string, im map[string]any) string {
 			return "crash:visit"
 		case strings.Contains(site, "deref"):
 			return "crash:deref"
+		case strings.Contains(site, "MarshalJSON") || strings.Contains(site, "MarshalYAML"):
+			return "crash:marshal"
 		case strings.Contains(site, "alidate"):
 			return "crash:validate"
 		}
@@ -399,13 +505,13 @@ func c20Group(iAb []string, im map[string]any) string {
 		return iAb[0]
 	}
 	// first abnormal stage in pipeline order
-	for _, st := range []string{"sniff", "load", "validate", "validate_opts", "marshal", "internalize", "marshal2"} {
+	for _, st := range []string{"sniff", "load", "validate", "validate_opts", "validate_more", "marshal", "marshal_yaml", "internalize", "marshal2"} {
 		for _, a := range iAb {
 			if a == st {
 				switch st {
 				case "sniff", "load":
 					return "load"
-				case "validate", "validate_opts":
+				case "validate", "validate_opts", "validate_more":
 					return "validate"
 				}
 				return "post"
@@ -671,6 +777,12 @@ var c20Graphs = []string{
 	`{"openapi":"3.0.0","info":{"title":"t","version":"1"},"paths":{},"components":{"schemas":{"A":{"$ref":"#/components/schemas/B/additionalProperties"},"B":{"$ref":"#/components/schemas/C"},"C":{"type":"object"}}}}`,
 	// path item references, callbacks that refer to paths
 	`{"openapi":"3.0.0","info":{"title":"t","version":"1"},"paths":{"/a":{"$ref":"#/paths/~1b"},"/b":{"get":{"responses":{"200":{"description":"ok"}}}},"/c":{"$ref":"#/paths/~1c"},"/d":{"$ref":"#/paths/~1e"},"/e":{"$ref":"#/paths/~1d"}}}`,
+	// a header among the headers of an encoding of its own content (Validate has no visited set for headers)
+	`{"openapi":"3.0.0","info":{"title":"t","version":"1"},"paths":{"/a":{"get":{"responses":{"200":{"description":"ok","headers":{"h":{"$ref":"#/components/headers/H"}}}}}}},"components":{"headers":{"H":{"content":{"multipart/form-data":{"encoding":{"f":{"headers":{"X":{"$ref":"#/components/headers/H"}}}}}}},"I":{"schema":{"type":"string"}}}}}`,
+	// an inline callback whose path item refers back to the path item of its operation
+	`{"openapi":"3.0.0","info":{"title":"t","version":"1"},"paths":{"/a":{"get":{"callbacks":{"c":{"/cb":{"$ref":"#/paths/~1a"}}},"responses":{"200":{"description":"ok"}}}}}}`,
+	// a path item with $ref and content; a reference into an extension member
+	`{"openapi":"3.0.0","info":{"title":"t","version":"1"},"paths":{"/a":{"$ref":"#/paths/~1b","get":{"parameters":[{"$ref":"#/components/parameters/P"}],"responses":{"200":{"description":"ok"}}}},"/b":{"get":{"responses":{"200":{"$ref":"#/x-r"}}}}},"components":{"parameters":{"P":{"name":"p","in":"query","schema":{"type":"string"}}}},"x-r":{"description":"d","headers":{"h":{"$ref":"#/x-r"}}}}`,
 	// null server variables, null members everywhere
 	`{"openapi":"3.0.0","info":{"title":"t","version":"1"},"servers":[{"url":"https://{a}.x","variables":{"a":null}},null],"paths":{"/a":null,"/b":{"get":null,"parameters":[null],"servers":[null]}},"components":{"schemas":{"A":null},"responses":{"R":null},"parameters":{"P":null},"headers":{"H":null},"requestBodies":{"B":null},"securitySchemes":{"K":null},"examples":{"E":null},"links":{"L":null},"callbacks":{"C":null}},"tags":[null],"security":[null]}`,
 }
@@ -722,7 +834,7 @@ func c20ParseOracle(raw []byte) (v any, ok bool) {
 	dec := json.NewDecoder(bytes.NewReader(raw))
 	dec.UseNumber()
 	if err := dec.Decode(&v); err == nil {
-		if _, err := dec.Token(); err != nil { // exactly one value
+		if _, err := dec.Token(); err == io.EOF { // exactly one value and nothing after it (json.Unmarshal's rule)
 			return v, true
 		}
 	}
@@ -1020,8 +1132,8 @@ func genC20(ctx *hx.Ctx, emit func(hx.Case)) {
 	positions := c20ObjectPositions(small)
 	for pi, p := range positions {
 		for ti, t := range targets {
-			if !ctx.Thorough() && (pi*7+ti)%4 != int(ctx.Seed%4) {
-				continue // quick tier: a quarter of the block, chosen by the seed
+			if !ctx.Thorough() && (pi*7+ti)%6 != int(ctx.Seed%6) {
+				continue // quick tier: a sixth of the block, chosen by the seed
 			}
 			d := c20Set(small, p, map[string]any{"$ref": t}, false)
 			ext := !strings.HasPrefix(t, "#") && t != ""
@@ -1055,6 +1167,11 @@ func genC20(ctx *hx.Ctx, emit func(hx.Case)) {
 		}
 	}
 
+	// 1d–1f. directed blocks: path-item reference graphs, targets in extension members, unwalked path items
+	c20PathItemCases(emit)
+	c20ExtensionTargetCases(emit)
+	c20UnwalkedCases(small, emit)
+
 	// 2. YAML forms, degenerate byte strings, deep nesting
 	for _, y := range c20YamlSpecials {
 		for _, e := range []string{"data", "path"} {
@@ -1070,18 +1187,26 @@ func genC20(ctx *hx.Ctx, emit func(hx.Case)) {
 			raw := c20Deep(oc[0], oc[1], n)
 			emit(hx.Case{"raw64": base64.StdEncoding.EncodeToString(raw), "entry": "data", "ext": false, "parsed": false, "deep": n})
 		}
-		// deep but valid positions: schema nesting depth n (bounded to what the parsers accept)
-		if n <= 5000 {
+	}
+	// deep but valid positions: schema nesting depth n. The typed decoding is quadratic in the depth
+	// (1000 levels: 0.5 s, 5000 levels: 11 s of json.Unmarshal on this machine) — kept well below the
+	// per-case limit so that load on the machine cannot turn the case into a timeout.
+	valid := []int{100, 1000}
+	if ctx.Thorough() {
+		valid = append(valid, 2500)
+	}
+	for _, n := range valid {
+		for _, kw := range []string{"items", "not", "additionalProperties"} {
 			var s any = map[string]any{"type": "string"}
 			for i := 0; i < n; i++ {
-				s = map[string]any{"items": s}
+				s = map[string]any{kw: s}
 			}
 			emit(c20Case(c20Set(minimal, c20Path{"components"}, map[string]any{"schemas": map[string]any{"D": s}}, false), "json", "data", false, false))
 		}
 	}
 
 	// 3. seeded random stream: tree-level mutations
-	n := 6000
+	n := 4500
 	if ctx.Thorough() {
 		n = 120000
 	}
@@ -1109,8 +1234,44 @@ func genC20(ctx *hx.Ctx, emit func(hx.Case)) {
 		}
 		emit(c20Case(d, enc, hx.Pick(r, entries), ext, ext || r.Chance(20)))
 	}
+	// 3b. the same mutated documents written as YAML with anchors / aliases / merge keys / non-string keys
+	ny := 600
+	if ctx.Thorough() {
+		ny = 12000
+	}
+	for i := 0; i < ny; i++ {
+		sd := pool[r.Intn(len(pool))]
+		d := sd.doc
+		for k, m := 0, r.Intn(3); k < m; k++ {
+			d = c20Mutate(r, d, sd.targets)
+		}
+		emit(c20RawCase(c20YamlEmit(r, d), hx.Pick(r, entries), r.Chance(30)))
+	}
+	// 3c. huge scalars: a long description, a long key, numbers with hundreds of digits, a long $ref, a long enum
+	bigEnum := make([]any, 1<<16)
+	for i := range bigEnum {
+		bigEnum[i] = json.Number(strconv.Itoa(i))
+	}
+	for _, big := range []struct {
+		p c20Path
+		v any
+	}{
+		{c20Path{"info", "description"}, strings.Repeat("x", 1<<20)},
+		{c20Path{"components", "schemas", strings.Repeat("K", 1<<16)}, map[string]any{"type": "string"}},
+		{c20Path{"components", "schemas", "T", "maximum"}, json.Number("1" + strings.Repeat("0", 400))},
+		{c20Path{"components", "schemas", "T", "maxLength"}, json.Number(strings.Repeat("9", 400))},
+		{c20Path{"components", "schemas", "T", "$ref"}, "#/" + strings.Repeat("a/", 1<<15)},
+		{c20Path{"components", "schemas", "T", "$ref"}, strings.Repeat("../", 1<<12) + "other.json#/components/schemas/T"},
+		{c20Path{"components", "schemas", "T", "pattern"}, strings.Repeat("(a", 5000)},
+		{c20Path{"components", "schemas", "T", "enum"}, bigEnum},
+	} {
+		for _, enc := range []string{"json", "yaml"} {
+			emit(c20Case(c20Set(small, big.p, big.v, false), enc, "path", true, true))
+		}
+	}
+
 	// 4. token-level mutations of serialised documents
-	nt := 1500
+	nt := 1200
 	if ctx.Thorough() {
 		nt = 30000
 	}
@@ -1124,9 +1285,264 @@ func genC20(ctx *hx.Ctx, emit func(hx.Case)) {
 	}
 }
 
+// ---------------------------------------------------------------- directed blocks added with the repairs
+
+const c20Op = `{"responses":{"200":{"description":"ok"}}}`
+
+// c20PathItemCases: every way one path item can refer to another — chains, cycles a→b→a, self-references,
+// with and without '#' fragment, across files, next to content of its own, below inline and referenced
+// callbacks (resolvePathItemRef calls itself on the copied target since 9b25d89).
+func c20PathItemCases(emit func(hx.Case)) {
+	items := []string{
+		`{"$ref":"#/paths/~1b"}`, `{"$ref":"#/paths/~1c"}`, `{"$ref":"#/paths/~1a"}`, `{"$ref":"#/paths/~1zz"}`,
+		`{"$ref":"o.json#/paths/~1o"}`, `{"$ref":"o.json#/paths/~1p"}`, `{"$ref":"pi.json"}`, `{"$ref":"pj.json"}`, `{"$ref":"root.json#/paths/~1a"}`, `{"$ref":"root.json#/paths/~1b"}`,
+		`{"$ref":"#/paths/~1c","get":` + c20Op + `}`, `{"$ref":"#/paths/~1b","summary":"s"}`, `null`, `{}`, `{"get":` + c20Op + `}`,
+		`{"$ref":"#/components/callbacks/C/~1cb"}`, `{"$ref":"#"}`, `{"$ref":"o.json"}`, `{"$ref":"o.json#"}`,
+	}
+	cbs := []string{
+		``, `{"c":{"/cb":{"$ref":"#/paths/~1a"}}}`, `{"c":{"/cb":{"$ref":"#/paths/~1b"}}}`, `{"c":{"/cb":{"$ref":"#/paths/~1c"}}}`,
+		`{"c":{"$ref":"#/components/callbacks/C"}}`, `{"c":{"/cb":{"$ref":"o.json#/paths/~1o"}}}`, `{"c":{"/cb":{"$ref":"pi.json"}},"d":{"$ref":"#/components/callbacks/D"}}`,
+	}
+	files := map[string]any{
+		"o.json": c20Parse(`{"openapi":"3.0.0","info":{"title":"o","version":"1"},"paths":{"/o":{"$ref":"root.json#/paths/~1a"},"/p":{"$ref":"./o.json#/paths/~1q"},"/q":{"$ref":"o.json#/paths/~1p"},"/r":{"$ref":"#/paths/~1r"},
+		   "/s":{"get":{"callbacks":{"c":{"/cb":{"$ref":"root.json#/paths/~1c"}}},"responses":{"200":{"description":"ok"}}}}}}`),
+		"pi.json": c20Parse(`{"get":{"callbacks":{"c":{"/cb":{"$ref":"pi.json"}}},"responses":{"200":{"description":"ok"}}}}`),
+		"pj.json": c20Parse(`{"$ref":"pj.json"}`),
+	}
+	n := 0
+	for i, a := range items {
+		for j, b := range items {
+			for k, cb := range cbs {
+				if (i+2*j+3*k)%3 != 0 && !(i < 4 && j < 4) { // a third of the product, the local block completely
+					continue
+				}
+				c := `{"get":{"responses":{"200":{"description":"ok"}}`
+				if cb != "" {
+					c += `,"callbacks":` + cb
+				}
+				c += `}}`
+				doc := c20Parse(`{"openapi":"3.0.0","info":{"title":"t","version":"1"},"paths":{"/a":` + a + `,"/b":` + b + `,"/c":` + c + `},
+				  "components":{"callbacks":{"C":{"/cb":{"$ref":"#/paths/~1a"}},"D":{"/cb":{"$ref":"#/paths/~1c"},"/cc":{"$ref":"o.json#/paths/~1s"}}}}}`)
+				ext := strings.Contains(a+b+cb, ".json")
+				cs := hx.Case{"doc": doc, "enc": "json", "entry": []string{"path", "file", "data"}[n%3], "ext": ext || n%5 == 0, "files": files}
+				emit(cs)
+				n++
+			}
+		}
+	}
+}
+
+// c20ExtensionTargetCases: a component of every kind given by a reference into an extension member (the
+// target is re-decoded from map[string]any): valid, with a child that refers back to the same text (a
+// callback of another kind, ignored since a04fe6c), with a null child (the swallowed sentinel), degenerate.
+func c20ExtensionTargetCases(emit func(hx.Case)) {
+	kinds := map[string][]string{
+		"schemas":         {`{"type":"object","properties":{"p":{"type":"string"}}}`, `{"properties":{"p":{"$ref":"#/x-t"}}}`, `{"properties":{"a":{"$ref":"#/x-t"},"p":null}}`, `{"items":null,"not":{"$ref":"#/x-u"}}`},
+		"parameters":      {`{"name":"p","in":"query","schema":{"type":"string"}}`, `{"name":"p","in":"query","schema":{"$ref":"#/x-t"}}`, `{"name":"p","in":"query","examples":{"e":null}}`, `{"name":"p","in":"query","content":{"a/b":{"schema":{"$ref":"#/x-t"},"encoding":{"f":{"headers":{"h":{"$ref":"#/x-t"}}}}}}}`},
+		"headers":         {`{"schema":{"type":"string"}}`, `{"schema":{"$ref":"#/x-t"}}`, `{"examples":{"e":{"$ref":"#/x-t"}}}`, `{"content":{"a/b":{"encoding":{"f":{"headers":{"h":{"$ref":"#/x-t"},"n":null}}}}}}`},
+		"requestBodies":   {`{"content":{"a/b":{"schema":{"type":"string"}}}}`, `{"content":{"a/b":{"schema":{"$ref":"#/x-t"}}}}`, `{"content":{"a/b":{"examples":{"e":null}}}}`, `{"content":{"a/b":{"encoding":{"f":{"headers":{"h":{"$ref":"#/x-t"}}}}}}}`},
+		"responses":       {`{"description":"d"}`, `{"description":"d","headers":{"h":{"$ref":"#/x-t"}}}`, `{"description":"d","links":{"l":null}}`, `{"description":"d","links":{"l":{"$ref":"#/x-t"}},"content":{"a/b":{"schema":{"$ref":"#/x-t"}}}}`},
+		"securitySchemes": {`{"type":"http","scheme":"basic"}`, `{"$ref":"#/x-t"}`, `{"type":null}`, `{"$ref":"#/x-u"}`},
+		"examples":        {`{"value":1}`, `{"$ref":"#/x-t"}`, `{"value":null}`, `{"$ref":"#/x-u"}`},
+		"links":           {`{"operationId":"x"}`, `{"$ref":"#/x-t"}`, `{"server":null}`, `{"$ref":"#/x-u"}`},
+		"callbacks":       {`{"/cb":{"get":` + c20Op + `}}`, `{"/cb":{"$ref":"#/x-t"}}`, `{"/cb":null}`, `{"/cb":{"get":{"callbacks":{"c":{"$ref":"#/x-t"}},"responses":{"200":{"description":"ok"}}}}}`},
+	}
+	degenerate := []string{`{}`, `null`, `5`, `[]`, `"x"`, `{"$ref":"#/x-t"}`, `{"$ref":"#/x-u"}`}
+	use := map[string]string{"schemas": `{"get":{"parameters":[{"name":"p","in":"query","schema":{"$ref":"#/x-t"}}],"responses":{"200":{"description":"ok"}}}}`,
+		"parameters": `{"parameters":[{"$ref":"#/x-t"}],"get":` + c20Op + `}`, "headers": `{"get":{"responses":{"200":{"description":"ok","headers":{"h":{"$ref":"#/x-t"}}}}}}`,
+		"requestBodies": `{"post":{"requestBody":{"$ref":"#/x-t"},"responses":{"200":{"description":"ok"}}}}`, "responses": `{"get":{"responses":{"200":{"$ref":"#/x-t"}}}}`,
+		"examples": `{"get":{"parameters":[{"name":"p","in":"query","examples":{"e":{"$ref":"#/x-t"}}}],"responses":{"200":{"description":"ok"}}}}`,
+		"links":    `{"get":{"responses":{"200":{"description":"ok","links":{"l":{"$ref":"#/x-t"}}}}}}`, "callbacks": `{"get":{"callbacks":{"c":{"$ref":"#/x-t"}},"responses":{"200":{"description":"ok"}}}}`}
+	var names []string
+	for k := range kinds {
+		names = append(names, k)
+	}
+	sort.Strings(names)
+	n := 0
+	for _, k := range names {
+		for _, t := range append(append([]string{}, kinds[k]...), degenerate...) {
+			for _, pos := range []string{"component", "use"} {
+				doc := c20Parse(`{"openapi":"3.0.0","info":{"title":"t","version":"1"},"paths":{},"components":{},"x-t":` + t + `,"x-u":{"$ref":"#/x-u"}}`)
+				if pos == "component" {
+					doc = c20Set(doc, c20Path{"components"}, map[string]any{k: map[string]any{"A0": map[string]any{"$ref": "#/x-t"}}}, false)
+				} else {
+					// the same reference at a use site below a path item
+					if use[k] == "" {
+						continue
+					}
+					doc = c20Set(doc, c20Path{"paths"}, map[string]any{"/a": c20Parse(use[k])}, false)
+				}
+				emit(hx.Case{"doc": doc, "enc": "json", "entry": []string{"data", "path", "file"}[n%3], "ext": false})
+				n++
+			}
+		}
+	}
+}
+
+// c20UnwalkedCases: a path item that has both $ref and content of its own (the loader leaves it alone,
+// InternalizeRefs and Validate descend into it): every position below it as a reference or null.
+func c20UnwalkedCases(small any, emit func(hx.Case)) {
+	var below, all []c20Path
+	c20Walk(small, nil, &all)
+	for _, p := range all {
+		if len(p) >= 3 && p[0] == "paths" && p[1] == "/a" {
+			below = append(below, p)
+		}
+	}
+	refs := []string{"#/components/parameters/P", "#/components/schemas/S", "#/components/responses/R", "#/components/callbacks/C", "#/components/requestBodies/B", "#/x-root", "#/paths/~1b", "other.json#/components/schemas/S"}
+	vals := []any{nil, map[string]any{}}
+	for _, r := range refs {
+		vals = append(vals, map[string]any{"$ref": r})
+	}
+	n := 0
+	for _, pr := range []string{"#/paths/~1b", "#/components/x", "other.json#/paths/~1o", "#/paths/~1a"} {
+		base := c20Set(small, c20Path{"paths", "/a", "$ref"}, pr, false)
+		base = c20Set(base, c20Path{"paths", "/b"}, c20Parse(`{"get":`+c20Op+`}`), false)
+		ext := strings.Contains(pr, ".json")
+		emit(c20Case(base, "json", "path", ext, ext))
+		for _, p := range below {
+			for vi, v := range vals {
+				n++
+				if vi >= 2 && n%2 == 1 { // half of the references, every null and {}
+					continue
+				}
+				d := c20Set(base, p, v, false)
+				e := ext
+				if m, ok := v.(map[string]any); ok && strings.Contains(fmt.Sprint(m["$ref"]), ".json") {
+					e = true
+				}
+				emit(c20Case(d, "json", []string{"data", "path", "file"}[n%3], e, e))
+			}
+		}
+	}
+}
+
+// c20YamlEmit renders a JSON tree as block-style YAML using the features the JSON form cannot express:
+// anchors and aliases for repeated sub-trees, a merge key, non-string keys, YAML spellings of booleans
+// and null. The result need not be valid YAML in every case (the parsers decide; the parse is an input).
+func c20YamlEmit(r *hx.Rng, doc any) []byte {
+	count := map[string]int{}
+	var scan func(v any)
+	scan = func(v any) {
+		switch x := v.(type) {
+		case map[string]any:
+			if len(x) > 0 {
+				b, _ := json.Marshal(x)
+				count[string(b)]++
+			}
+			for _, e := range x {
+				scan(e)
+			}
+		case []any:
+			for _, e := range x {
+				scan(e)
+			}
+		}
+	}
+	scan(doc)
+	anchors := map[string]string{}
+	var anchorOrder []string
+	scalar := func(v any) string {
+		switch x := v.(type) {
+		case nil:
+			return hx.Pick(r, []string{"null", "~", ""})
+		case bool:
+			if x {
+				return hx.Pick(r, []string{"true", "True", "yes", "on"})
+			}
+			return hx.Pick(r, []string{"false", "no", "off"})
+		}
+		b, _ := json.Marshal(v)
+		return string(b)
+	}
+	key := func(k string) string {
+		// an integer-looking key written bare is a non-string key for YAML
+		if _, err := strconv.Atoi(k); err == nil && r.Chance(60) {
+			return k
+		}
+		b, _ := json.Marshal(k)
+		return string(b)
+	}
+	// emitV writes the value that follows "key:" or "-" (starting on the same line) at indentation ind
+	var emitV func(sb *strings.Builder, v any, ind string)
+	emitV = func(sb *strings.Builder, v any, ind string) {
+		switch x := v.(type) {
+		case map[string]any:
+			if len(x) == 0 {
+				sb.WriteString(" {}\n")
+				return
+			}
+			b, _ := json.Marshal(x)
+			id := string(b)
+			if a, ok := anchors[id]; ok {
+				sb.WriteString(" *" + a + "\n")
+				return
+			}
+			if count[id] > 1 && r.Chance(70) {
+				a := "a" + strconv.Itoa(len(anchors)+1)
+				anchors[id] = a
+				anchorOrder = append(anchorOrder, a)
+				sb.WriteString(" &" + a)
+			}
+			sb.WriteString("\n")
+			if _, isRef := x["$ref"]; !isRef && len(anchorOrder) > 0 && r.Chance(8) {
+				sb.WriteString(ind + "<<: *" + anchorOrder[r.Intn(len(anchorOrder))] + "\n") // merge key
+			}
+			if r.Chance(3) {
+				sb.WriteString(ind + hx.Pick(r, []string{"1", "true", "null", "1.5", "[a, b]"}) + ": x\n")
+			}
+			for _, k := range c20Keys(x) {
+				sb.WriteString(ind + key(k) + ":")
+				emitV(sb, x[k], ind+"  ")
+			}
+		case []any:
+			if len(x) == 0 {
+				sb.WriteString(" []\n")
+				return
+			}
+			sb.WriteString("\n")
+			for _, e := range x {
+				sb.WriteString(ind + "-")
+				switch ee := e.(type) {
+				case map[string]any, []any:
+					// a collection below a sequence entry: in flow style (JSON is YAML) — keeps the emitter small
+					b, _ := json.Marshal(ee)
+					sb.WriteString(" " + string(b) + "\n")
+				default:
+					emitV(sb, e, ind+"  ")
+				}
+			}
+		default:
+			sb.WriteString(" " + scalar(v) + "\n")
+		}
+	}
+	var sb strings.Builder
+	emitV(&sb, doc, "")
+	out := strings.TrimPrefix(sb.String(), "\n")
+	if r.Chance(10) {
+		out = "%YAML 1.1\n---\n" + out
+	}
+	return []byte(out)
+}
+
 // ---------------------------------------------------------------- shrinker
 
+// shrinkC20 proposes at most c20ShrinkCap smaller variants per round (largest deletions first): a round
+// costs one child-process evaluation per candidate, a crashing candidate two process starts.
+const c20ShrinkCap = 160
+
 func shrinkC20(c hx.Case) []hx.Case {
+	out := shrinkC20All(c)
+	if c20OverBudget() {
+		return nil
+	}
+	if len(out) > c20ShrinkCap {
+		out = out[:c20ShrinkCap]
+	}
+	return out
+}
+
+func shrinkC20All(c hx.Case) []hx.Case {
 	var out []hx.Case
 	if _, raw := c["raw64"]; raw {
 		b := c20Bytes(c)
